@@ -19,6 +19,27 @@ Definition plot (c : coord) : option Q :=
   match c with ECode k => Some (inject_Z k) | EVal q => Some q | ENaN => None end.
 Definition get (a : axis) (e : elem) : coord := match a with AX => fst e | AY => snd e end.
 
+(* ---------- the display jitter of a categorical component ----------
+   The array data[att] hands to to_mask is the component's own categorical_ndarray: its elements are the labels (here: the index k of
+   the label in the component's categories), and when jitter is switched on (CategoricalComponent(..., jitter='uniform') /
+   .jitter(method='uniform')) its .codes property returns k + j with a random display offset j in [-1/2, 1/2).  Arrays obtained
+   through a view (data[att, view], .ravel()) carry no offset.  Every to_mask of this dispatch reads the labels. *)
+Inductive jcoord := JCode (k : Z) (j : Q) | JVal (q : Q) | JNaN.
+Definition jelem := (jcoord * jcoord)%type.
+(* what to_mask reads *)
+Definition label_of (c : jcoord) : coord :=
+  match c with JCode k _ => ECode k | JVal q => EVal q | JNaN => ENaN end.
+Definition strip (e : jelem) : elem := (label_of (fst e), label_of (snd e)).
+(* categorical_ndarray.codes: _codes + _jitter *)
+Definition displayed (c : jcoord) : option Q :=
+  match c with JCode k j => Some (inject_Z k + j) | JVal q => Some q | JNaN => None end.
+Definition set_jitter (c : jcoord) (j : Q) : jcoord := match c with JCode k _ => JCode k j | _ => c end.
+(* the same elements carrying another vector of offsets (one pair per element) *)
+Definition jitter_elems (es : list jelem) (js : list (Q * Q)) : list jelem :=
+  map (fun p => (set_jitter (fst (fst p)) (fst (snd p)), set_jitter (snd (fst p)) (snd (snd p)))) (combine es js).
+(* the nearest integer (round half up): recovers the category index from a displayed coordinate *)
+Definition nearest (q : Q) : Z := Qfloor (q + (1 # 2)).
+
 (* the region handed to roi_to_subset_state: a 2-d region (with the vertex arrays its to_polygon() returns, used only for
    round shapes, whose 100-gon the harness supplies) or a CategoricalROI (set of category codes) *)
 Inductive roi9 :=
@@ -184,6 +205,9 @@ Fixpoint sem (s : state) (e : elem) : bool :=
   | SError => false
   end.
 
+(* the mask of a dataset whose categorical arrays carry display offsets *)
+Definition mask_j (s : state) (es : list jelem) : list bool := map (fun e => sem s (strip e)) es.
+
 (* the reference: the element's plotted position lies in the region *)
 (* a range region looks at one coordinate only; the other one may be missing *)
 Definition plotted (r : roi9) (e : elem) : option pt :=
@@ -213,6 +237,16 @@ Definition dec_coord (t : tree) : coord :=
   end.
 Definition dec_elem (t : tree) : elem :=
   match t with T _ [a; b] => (dec_coord a, dec_coord b) | _ => (ENaN, ENaN) end.
+(* (1 k) = a category index without offset, (3 k j) = with the offset j the component adds for display *)
+Definition dec_jcoord (t : tree) : jcoord :=
+  match t with
+  | T 1 [T k _] => JCode k 0
+  | T 3 [T k _; j] => JCode k (dec_q j)
+  | T 2 [q] => JVal (dec_q q)
+  | _ => JNaN
+  end.
+Definition dec_jelem (t : tree) : jelem :=
+  match t with T _ [a; b] => (dec_jcoord a, dec_jcoord b) | _ => (JNaN, JNaN) end.
 Definition dec_roi9 (t : tree) : option roi9 :=
   match t with
   | T 7 [cats] => Some (RCat (to_zs cats))
@@ -241,9 +275,9 @@ Definition run_case (t : tree) : tree :=
     | None => err 2
     | Some r9 =>
       let st := roi_to_state r9 (dec_kind xk) (dec_kind yk) in
-      let els := map dec_elem es in
-      let sm := sem st in
-      T 0 [enc_state st; bools (map sm els); bools (map (roi_contains r9) els); bools (map (roi_near (dec_q eps) r9) els)]
+      let jels := map dec_jelem es in
+      let els := map strip jels in
+      T 0 [enc_state st; bools (mask_j st jels); bools (map (roi_contains r9) els); bools (map (roi_near (dec_q eps) r9) els)]
     end
   | T 2 [T n _; lo; hi] => zs (from_range n (dec_q lo) (dec_q hi))
   | T 4 [cats; lo; hi; xs] =>
